@@ -821,17 +821,29 @@ def f10_function_counts(ctx) -> None:
         if len(st) != 1:
             ctx.violation("F10", f, f"Function.{name} must store the new value once in self._value[{key}]", construct=f"{FN}.{name} store")
             continue
-        # the old value: read from self._value[key], 0 for a key beyond the list
-        olds = [d for n, ds in D.definitions(f).items() for d in ds if d[1] is not None and norm(d[1]) == f"self._value[{key}]"]
+        # the old value: read from self._value[key], 0 for a key beyond the list -- here, or in a
+        # helper of the same class that is handed the key and returns it
         oname = None
+        reader = f          # the function in which the old value is read and an infinite key refused
+        rname = None
         for n, ds in D.definitions(f).items():
             if any(d[1] is not None and norm(d[1]) == f"self._value[{key}]" for d in ds):
-                oname = n
+                oname = rname = n
+        if oname is None:
+            for n, ds in D.definitions(f).items():
+                for d in ds:
+                    v = d[1]
+                    if isinstance(v, ast.Call) and isinstance(v.func, ast.Attribute) and isinstance(v.func.value, ast.Name) and v.func.value.id == "self" \
+                            and [norm(a) for a in v.args] == [key] and v.func.attr in P.need_class(FN).methods:
+                        h = P.need_class(FN).methods[v.func.attr].node
+                        hk = [p for p in D.param_names(h) if p != "self"]
+                        hr = [r for r in C.returns_of(h) if r.value is not None]
+                        if len(hk) == 1 and hr and all(isinstance(r.value, ast.Name) for r in hr) and len({r.value.id for r in hr}) == 1:
+                            cand = hr[0].value.id
+                            if any(dd[1] is not None and norm(dd[1]) == f"self._value[{hk[0]}]" for dd in D.definitions(h).get(cand, [])):
+                                oname, reader, rname = n, h, cand
         if oname is None:
             raise AnalysisError(f"F10: Function.{name} does not read the old value into a local")
-        other = [d for d in D.definitions(f)[oname] if d[1] is not None and norm(d[1]) != f"self._value[{key}]"]
-        if all(isinstance(d[1], ast.Constant) and d[1].value == 0 and C.handlers_around(f, d[0]) == [] for d in other):
-            pass
         val = st[0].value
         if new_none:
             okv = isinstance(val, ast.Constant) and val.value is None
@@ -844,7 +856,7 @@ def f10_function_counts(ctx) -> None:
         else:
             ctx.violation("F10", st[0], f"Function.{name} must store `{want}`; found `{norm(val)}`")
         # refusing an already infinite key
-        rz = [r for r in C.raises_of(f) if any(pol and _is_none_test(t, oname, False) for t, pol in C.flatten_guards(C.guards(f, r)))]
+        rz = [r for r in C.raises_of(reader) if any(pol and _is_none_test(t, rname, False) for t, pol in C.flatten_guards(C.guards(reader, r)))]
         if rz:
             ctx.ok("F10", f"Function.{name} refuses a key that is already infinite")
         else:
